@@ -70,7 +70,7 @@ Definition pushCaptures (l : list (Z * Z)) : dres :=
 (* string.find, pattern branch, plus the len(ptn) == 0 branch (ptn_empty) *)
 Definition find_im (ptn_empty : bool) (si : Z) : dres * Z :=
   if slen s <? si then (DNil, 0)
-  else if ptn_empty then (DVals [CPos 1; CPos 0], slen s - si)   (* i+1, i+len(ptn) with i = 0 *)
+  else if ptn_empty then (DVals [CPos (si + 1); CPos si], slen s - si)   (* si+i+1, si+i+len(ptn) with i = 0 *)
   else
     let r := api true p fuel s si B in
     match a_res r with
